@@ -564,6 +564,8 @@ class _Counter(object):
 
 
 def oracle(c):
+    if c['desc'].get('nested'):
+        return _oracle_nested(c)
     from pylatexenc.latex2text._inputlatexfile import read_latex_file
     from pylatexenc.latex2text import LatexNodes2Text
     d = c['desc']
@@ -672,7 +674,73 @@ def extra_search(seed, tier, broken):
         names = gen_names(rnd, tree, '/w/base', 'quick', 60)
         for ch in chunks(names, 24):
             out.append(_case(tree, None, '/w/base', True, ch, '/w/base', l2t=False))
+    out += nested_cases(rnd, tier)
     return out
+
+
+def nested_cases(rnd, tier):
+    """\\input inside an included file: the inner name is resolved against the CONFIGURED directory like any other
+    (oracle only).  First-level files n1..n4 (inside the directory, reached under several names, also through links
+    that leave and re-enter it) contain their marker followed by \\input{X}; X is any generated name."""
+    import copy
+    out = []
+    hand = {'w': {'base': {'inner.tex': ['f', 'INinnerq\\input{secret}'], 'ext': L('../elsewhere'), 'in2.tex': ['f', 'INtwoq\\input{leaf}'],
+                           'leaf.tex': ['f', 'INleafq']},
+                  'elsewhere': {'back.tex': L('../base/inner.tex'), 'secret.tex': ['f', 'OUTsecretq'], 'leaf.tex': ['f', 'OUTleafq'],
+                                'two.tex': L('/w/base/in2.tex')}}}
+    out.append(_nested_case(hand, '/w/base', ['ext/back', 'ext/back.tex', '../elsewhere/back', '/w/elsewhere/back', 'inner', 'in2', 'ext/two',
+                                              '../elsewhere/two.tex']))
+    for i in range(6 if tier == 'quick' else 40):
+        tree = mark(std_layout(rnd, [1.0, 0.75][i % 2]), BASE)
+        pool = [n for n in gen_names(rnd, tree, BASE, 'quick', 80) if _texable(n) and 'n1' not in n and 'nn' not in n]
+        firsts = []
+        for k in range(4):
+            x = rnd.choice(pool)
+            put(tree, BASE + '/nn%d.tex' % k, ['f', 'INnn%dq\\input{%s}' % (k, x)])
+            firsts.append('nn%d' % k)
+        # the first-level files reached through links outside the directory that point back into it
+        put(tree, '/r/w/out/viann0.tex', L('../base/nn0.tex'))
+        put(tree, '/r/other/viann1.tex', L('/r/w/base/nn1.tex'))
+        names = firsts + ['lout/viann0', '../out/viann0', '../../other/viann1', '/r/other/viann1.tex', 'sub/../nn2', './nn3.tex']
+        out.append(_nested_case(tree, BASE, names))
+    return out
+
+
+def _nested_case(tree, d, names):
+    return {'wire': [1599], 'nt': True, 'desc': {'layout': tree, 'cwd': None, 'dir': d, 'strict': True, 'names': names,
+                                                   'base': d, 'l2t': True, 'nested': True}}
+
+
+def _oracle_nested(c):
+    import re
+    from pylatexenc.latex2text._inputlatexfile import read_latex_file
+    from pylatexenc.latex2text import LatexNodes2Text
+    d = c['desc']
+    with Layout(d) as lay:
+        rd = lay.real(d['dir'])
+        l2t = LatexNodes2Text()
+        l2t.set_tex_input_directory(rd, strict_input=True)
+
+        def expand(txt, depth=0):
+            # what the text of an included file converts to: its marker, every \\input{X} in it replaced by the
+            # conversion of what the configured directory holds under X (one-level lookups are judged elsewhere)
+            if depth > 6:
+                return txt
+            return re.sub(r'\\input\{([^}]*)\}', lambda m: expand(read_latex_file(rd, True, m.group(1)), depth + 1), txt)
+        for fn in d['names']:
+            rfn = lay.real(fn)
+            if not _texable(rfn):
+                continue
+            try:
+                got = l2t.latex_to_text('\\input{%s}' % rfn)
+            except RecursionError:
+                continue
+            want = expand(read_latex_file(rd, True, rfn))
+            if 'OUT' in got and 'OUT' not in want:
+                return ('outside-content-returned:nested-input', {'name': fn, 'returned': got, 'expected': want})
+            if got != want:
+                return ('nested-input-differs-from-lookup-in-configured-directory', {'name': fn, 'returned': got, 'expected': want})
+    return None
 
 
 def distribution(cases, impl_out):
